@@ -115,6 +115,33 @@ theorem C08_with_parts (l e : Sym) :
     containsTop (.atom (.withE l e)) (.atom (.lic l)) = true ∧ containsTop (.atom (.withE l e)) (.atom (.lic e)) = true := by
   simp [containsTop, simplifyE, simp, Atom.containsA, Atom.decompose]
 
+/-- **C08**: `contains(a, b)` implies that every license of the simplified `b` occurs in `a` — as a
+    license of `a`, or as one of the two parts of a "license WITH exception" of `a`. -/
+theorem C08_contains_atoms (a b : Expr Atom) (h : containsTop a b = true) :
+    ∀ y ∈ literals (simplifyE b), y ∈ literals a ∨ ∃ x ∈ literals a, ∃ m ∈ x.decompose, Atom.lic m = y := by
+  unfold containsTop at h
+  intro y hy
+  cases ha : simplifyE a with
+  | atom x =>
+    have hxa : x ∈ literals a := simp_lits _ a x (by rw [show simp (ltE ltAtom) a = simplifyE a from rfl, ha]; simp [literals])
+    cases hb : simplifyE b with
+    | atom z =>
+      rw [ha, hb] at h
+      rw [hb] at hy
+      simp only [literals, List.mem_singleton] at hy
+      subst hy
+      simp only [Atom.containsA, Bool.or_eq_true, beq_iff_eq, List.any_eq_true] at h
+      rcases h with h | ⟨m, hm, hmy⟩
+      · left; rw [← h]; exact hxa
+      · right; exact ⟨x, hxa, m, hm, hmy⟩
+    | node o ts => rw [ha, hb] at h; simp at h
+  | node o ts =>
+    rw [ha] at h
+    left
+    have := containsE_literals _ _ h y hy
+    rw [← ha] at this
+    exact simp_lits _ a y this
+
 /-- **C08**: `contains(a, b)` with `a` a single license implies that the license of `b` is `a` or a part of it -/
 theorem C08_contains_atoms_partial (x : Atom) (b : Expr Atom) (h : containsTop (.atom x) b = true) :
     ∃ y, simplifyE b = .atom y ∧ (x = y ∨ ∃ m ∈ x.decompose, Atom.lic m = y) := by
